@@ -149,7 +149,10 @@ def execute(sc):
                 d = seg_data(key)
             else:
                 return
-            asyncio.get_running_loop().call_soon(face.deliver_task, d)
+            if sc.get('resp_delay'):
+                asyncio.get_running_loop().call_later(sc['resp_delay'] / 1000.0, face.deliver_task, d)      # (a producer some milliseconds away)
+            else:
+                asyncio.get_running_loop().call_soon(face.deliver_task, d)
         face.on_send = on_send
 
         vcount = [0]
@@ -198,6 +201,11 @@ def execute(sc):
             # no validator argument: the application-wide data validator is the one in force (documented default)
             the_app.data_validator = validator
             kw = {}
+        if sc.get('clock_step'):
+            # the wall clock is set forwards / backwards while the fetch is under way (NTP step, resume from suspend): lifetimes are
+            # durations, they do not end because the date changed
+            for t_, secs_ in sc['clock_step']:
+                asyncio.get_running_loop().call_later(t_ / 1000.0, S.step_wall, secs_)
         if sc.get('abandon_first') is not None:
             # an earlier consumer of the same object on this application stopped after a few segments (left its loop and closed the
             # generator, or its task was cancelled in the middle): the fetch that follows is a fetch like any other
@@ -209,6 +217,8 @@ def execute(sc):
                         got_ += 1
                         if got_ >= sc['abandon_first'][1] and sc['abandon_first'][0] == 'break':
                             break
+                    else:
+                        R['earlier_ended_normally_after'] = got_
                 finally:
                     try:
                         await g_.aclose()
@@ -216,9 +226,11 @@ def execute(sc):
                         pass
             et = asyncio.ensure_future(earlier())
             if sc['abandon_first'][0] == 'cancel':
-                await asyncio.sleep(0.0005 + 0.001 * sc['abandon_first'][1])
+                await asyncio.sleep(0.002 + 0.004 * sc['abandon_first'][1])
                 et.cancel()
             await asyncio.gather(et, return_exceptions=True)
+            if sc['abandon_first'][0] == 'cancel' and R.get('earlier_ended_normally_after') is not None and R['earlier_ended_normally_after'] < sc['n']:
+                R['truncated_as_complete'] = R['earlier_ended_normally_after']
             await asyncio.sleep(0.3)         # (every Interest of the abandoned fetch has run out)
             R['requests'].clear()
             seen.clear()
@@ -273,6 +285,9 @@ def judge(ctx, sc, R, S):
     for le in S.sentinel.all():
         ex = le.get('exception')
         ctx.report(f'background-error:{type(ex).__name__ if ex else "?"}', f'{le.get("repr")}', w)
+    if R.get('truncated_as_complete') is not None:
+        ctx.report('cancelled-fetch-ends-like-a-complete-object', f'a consumer task cancelled in the middle of a fetch saw its loop over the object END NORMALLY after '
+                   f'{R["truncated_as_complete"]} of {sc["n"]} segments (a truncated object taken for complete; the cancellation swallowed)', w)
     exp_out, exp_res, exp_att = model(sc)
     for nm in R.get('validated_names', []):
         if sc['n'] and (len(nm) < 2 or rc.comp_parts(nm[-1])[0] != 0x32):
@@ -610,10 +625,16 @@ def run(ctx):
         sc.update(n=n_long, disc_answer=rng.choice([0, 0, 129]), loss={'128': 1, '255': 1} if n_long < 1000 else {}, fault=None, marker=rng.choice(['every', 'last', 'estimate']))
         scripts.append(sc)
         ctx.event('object-longer-than-128-segments')
+    for steps in ([(3, 3600)], [(3, -3600)], [(1, 86400), (120, -86400)], [(55, 7200)], [(205, 10)]):
+        for retry_ in (1, 3):
+            sc = gen_script(rng)
+            sc.update(n=rng.choice([3, 5]), disc_answer=0, retry=retry_, loss=({'1': 1} if retry_ == 3 else {}), fault=None, clock_step=steps, resp_delay=20)
+            scripts.append(sc)
+            ctx.event('fetch-while-the-wall-clock-is-stepped')
     for how in ('break', 'cancel'):
         for k_ in (0, 1, 2, 4):
             sc = gen_script(rng)
-            sc.update(n=rng.choice([3, 5, 8]), disc_answer=0, loss={}, fault=None, abandon_first=(how, k_), validator_via='argument', validator_form='function')
+            sc.update(n=rng.choice([3, 5, 8]), disc_answer=0, loss={}, fault=None, abandon_first=(how, k_), validator_via='argument', validator_form='function', resp_delay=4)
             scripts.append(sc)
             ctx.event('fetch-after-an-abandoned-fetch-of-the-same-object')
     for sc in scripts:
@@ -630,7 +651,7 @@ def run(ctx):
     for sc in templates + [gen_concurrent(rng) for _ in range(ctx.n(250, 80000))]:
         obs, S = execute_concurrent(sc)
         judge_concurrent(ctx, sc, obs, S)
-    for k in ('fetch-after-an-abandoned-fetch-of-the-same-object', 'object-longer-than-128-segments', 'marker-estimate', 'marker-other-type', 'marker-early-only', 'freshness-None', 'freshness-0', 'outcome-done', 'outcome-timeout', 'outcome-nack', 'outcome-valfail', 'concurrent-fetch', 'concurrent-outcome-done', 'concurrent-outcome-timeout',
+    for k in ('fetch-while-the-wall-clock-is-stepped', 'fetch-after-an-abandoned-fetch-of-the-same-object', 'object-longer-than-128-segments', 'marker-estimate', 'marker-other-type', 'marker-early-only', 'freshness-None', 'freshness-0', 'outcome-done', 'outcome-timeout', 'outcome-nack', 'outcome-valfail', 'concurrent-fetch', 'concurrent-outcome-done', 'concurrent-outcome-timeout',
               'concurrent-data-shared-between-fetchers', 'one-shot-name-with-lost-discovery', 'validator-via-app-default', 'content-type-omitted', 'validator-form-lambda', 'validator-form-object', 'validator-form-partial'):
         ctx.need_event(k)
     ctx.assumptions = ['an object without any final-block marker is outside the statement', 'the legacy front-end is the one segment_fetcher uses']
